@@ -87,4 +87,31 @@ Inv_Complete ==
 \* run time applies the same relation (inside the representable window)
 Inv_SameRel ==
     (I.mode = "assert" /\ Pos = 0 /\ WinI) => ((I.accepted <=> RelI) \/ KnownSameRel(Active, I, P))
+
+---------------------------------------------------------------------------
+(* Free-operand variant: the operand wires are adversarial too, so one     *)
+(* captured instance covers EVERY operand value of the field.  The         *)
+(* relation is stated on residues (what a gadget over the field can        *)
+(* enforce); inside the no-wrap window it coincides with Rel.              *)
+OpVal(w, const) == IF w = 0 THEN const % P ELSE WireVal(w, apub, apriv)
+AV == OpVal(I.awire, I.a)
+BV == OpVal(I.bwire, I.b)
+CV == OpVal(I.cwire, I.c)
+W  == Pow(2, I.n)
+
+RelField ==
+    CASE I.op = "assert_eq" -> AV = BV
+      [] I.op = "assert_ne" -> AV # BV
+      [] I.op = "assert_lt" -> (BV - AV - 1) % P < W
+      [] I.op = "assert_le" -> (BV - AV) % P < W
+      [] I.op = "assert_gt" -> (AV - BV - 1) % P < W
+      [] I.op = "assert_ge" -> (AV - BV) % P < W
+      [] I.op = "assert_zero" -> AV = 0
+      [] I.op = "assert_nonzero" -> AV # 0
+      [] I.op = "assert_positive" -> AV < W
+      [] I.op = "to_bits" -> AV < W
+      [] I.op = "bool" -> AV \in {0, 1}
+      [] I.op = "assert_range" -> (AV - BV) % P < W /\ (CV - AV - 1) % P < W
+
+Inv_EnforcedFree == (I.mode = "assert_free" /\ Accepting) => RelField
 =============================================================================
